@@ -11,7 +11,7 @@ use serde::{Deserialize, Serialize};
 use serde_json::{json, Value};
 
 const REG_ORGS: [Org; 2] = [Org::HostIsRp, Org::Idn];
-const AUTH_ORGS: [Org; 6] = [Org::HostIsRp, Org::Idn, Org::SubDomain, Org::Localhost, Org::Port, Org::Android];
+const AUTH_ORGS: [Org; 7] = [Org::HostIsRp, Org::Idn, Org::SubDomain, Org::Localhost, Org::Port, Org::Android, Org::AndroidFp2];
 
 #[derive(Clone, Copy, Debug, PartialEq, Eq, Serialize, Deserialize, Hash)]
 pub enum Allow {
@@ -93,7 +93,7 @@ fn apply(store: &Shared<RefStore>, act: &Act) -> (Vec<(String, String)>, String)
             (rc.findings, format!("register:{}", rc.outcome))
         }
         Act::Authenticate { org, allow, uv, mode, challenge } => {
-            let org = AUTH_ORGS[*org as usize % 6];
+            let org = AUTH_ORGS[*org as usize % AUTH_ORGS.len()];
             let (rp_arg, rp_eff, origin_str) = org.spec();
             let before = store.0.lock().unwrap().recs_ordered();
             let own: Option<Rec> = before.iter().find(|r| r.rp == rp_eff).cloned();
@@ -240,7 +240,7 @@ impl Sys for C03 {
                 }
             }
         }
-        for org in 0..6 {
+        for org in 0..AUTH_ORGS.len() as u8 {
             for allow in ALLOWS {
                 for uv in 0..4 {
                     for mode in MODES {
